@@ -137,6 +137,8 @@ func (m *memRig) otherMember(not crypto.Hash) crypto.Hash {
 func c29Variants(m *memRig, kind string) {
 	c := m.c
 	switch kind {
+	case "mint":
+		m.beforeMint = c29MintVariants(m)
 	case "pledge":
 		id := m.fresh()
 		if id == nil || m.pledging() != nil {
@@ -230,6 +232,8 @@ func c28OlderPledge(m *memRig) {
 func c28Variants(m *memRig, kind string) {
 	c := m.c
 	switch kind {
+	case "mint":
+		m.beforeMint = c28MintVariants(m)
 	case "pledge":
 		id := m.fresh()
 		if id == nil || m.pledging() != nil {
@@ -357,6 +361,35 @@ func c28History(m *memRig, n *cluster.SNode, checks *int) {
 				return
 			}
 		}
+	}
+}
+
+// c29MintVariants: the day's valid mint on the chain of a member that is not the elected operator.
+func c29MintVariants(m *memRig) func(tx *common.VersionedTransaction, elected *memIdent) {
+	return func(tx *common.VersionedTransaction, elected *memIdent) {
+		refused(m, "C29", "mint-by-non-elected-node", m.placeOn(m.otherMember(elected.id), tx, false), "the universal mint proposed by a node that is not the elected operator")
+	}
+}
+
+// c28MintVariants: the day's valid mint batched with a deposit, and a mint that references an older
+// consensus operation.
+func c28MintVariants(m *memRig) func(tx *common.VersionedTransaction, elected *memIdent) {
+	return func(tx *common.VersionedTransaction, elected *memIdent) {
+		c := m.c
+		m.seq++
+		dep, _ := c.MakeDeposit(cluster.AssetBTC, common.NewIntegerFromString("0.25"), fmt.Sprintf("c28-batch-%d", m.seq), 0, []int{0}, 1)
+		refused(m, "C28", "consensus-operation-batched", m.multi(elected.id, []*common.VersionedTransaction{tx, dep}, 0), "the universal mint batched with a deposit in one snapshot")
+		if c.Halt || len(m.records) == 0 {
+			return
+		}
+		_, _, txs, _ := c.Gns.BuildSnapshots()
+		stale := tx.Transaction
+		stale.References = []crypto.Hash{txs[len(txs)-1].PayloadHash()}
+		signed := &common.SignedTransaction{Transaction: stale}
+		if err := signed.SignRaw(elected.signer.PrivateSpendKey); err != nil {
+			return
+		}
+		refused(m, "C28", "stale-consensus-reference", m.placeOn(elected.id, signed.AsVersioned(), false), "a universal mint referencing the genesis custodian operation although later consensus operations exist")
 	}
 }
 
